@@ -144,7 +144,16 @@ func (v *Verifier) VerifyFunc(key string, c *Contract, class map[string]string) 
 	bv := fn.Pkg != nil && fn.Pkg.Pkg.Name() == "typ"
 	ctx := NewCtx()
 	e := &Engine{prog: v.prog, pkgs: v.pkgs, cs: v.cs, ctx: ctx, lay: NewLayouter(ctx, bv), root: fn, rootC: c, maxPaths: 4000,
-		inputs: map[string]Term{}, trustedUsed: map[string]bool{}, callees: map[string]bool{}, subFuns: map[string]bool{}}
+		inputs: map[string]Term{}, trustedUsed: map[string]bool{}, callees: map[string]bool{}, subFuns: map[string]bool{}, subCodes: map[string]int{}}
+	if fn.Pkg != nil {
+		switch fn.Pkg.Pkg.Name() {
+		case "sets", "sync2", "maps":
+			e.useAllocID = true
+		}
+	}
+	if len(c.Extra["subrefs"]) > 0 {
+		e.useAllocID = true
+	}
 	for _, o := range c.Extra["nla"] {
 		if o == "uf" {
 			e.nlaUF = true
